@@ -30,14 +30,30 @@ prop(
         "(stream or stream shape, schedule variant, set of server positions at which notifications fired "
         "[idle / 1..7 header bytes / 0..3 payload bytes / mid-response / blocked / closed, with query index for the fixed streams], "
         "cut positions for notify-free cases, capacity); random schedules are classed by the kinds of positions hit only. "
-        "The observations list how many notifications fired at each server position."
+        "The observations list how many notifications fired at each server position. "
+        "(h) sockets that report is_write_vectored() and take a vectored write as one write that may stop at any offset, also inside the "
+        "first slice, with the capacity walking through every offset of the response (every 5th in quick). "
+        "Wide part (c08_wide.rs), also one evaluation per script: several scripted connections (plain / buffering / vectored, limited "
+        "capacity) on one Server::run behind a scripted listener that yields connections at chosen moments, yields an error, or ends; "
+        "companion connections are well-behaved, stalled (blocked writing, inside a header or payload), or misbehaving (garbage, client "
+        "Error PDU, unsupported version, half a header then EOF, silent). Every connection is judged on its own against its "
+        "single-connection reference, Serial Notify per connection bounded from above by the notifications fired after it was accepted and "
+        "from below by those fired at a settled moment while it was parked (well-formed streams only); a violation is attributed by "
+        "re-running without the listener events / without the other connections. 31 enumerated script families per connection of interest "
+        "(every cut x listener error / end, two-connection stalls) plus seeded random scripts of 1-3 connections. Large responses: sources "
+        "whose router key info and ASPA provider list have 0 .. 65000 octets around the powers of two, served on all four socket kinds with "
+        "the capacity granted in pieces (1 .. 8193 octets); each output is compared with the octets RFC 8210 / 8210bis prescribe, built by "
+        "the harness' own PDU encoder from its own description of the source (payload PDUs of one response as a multiset), and with the "
+        "trivial schedule."
     ),
     assumptions=[
-        "single connection per server, single-threaded scheduler; poll order is the one tokio's current-thread runtime produces for the driver's step order (deliver/notify in either order within one tick, or separated by a quiescent point)",
+        "single-threaded scheduler; poll order is the one tokio's current-thread runtime produces for the driver's step order (deliver/notify in either order within one tick, or separated by a quiescent point)",
         "the payload source holds constant data during a run, so a notification can never legitimately change a response",
         "server positions (header n of 8, payload n of 4) are derived from bytes consumed from the socket and the documented framing (8-byte header, 4-byte Serial Query payload); they name evidence classes and violations, the verdict itself only compares output bytes",
         "after the first Error PDU the model oracle demands nothing further of the reference (closing or resynchronising are both accepted); the differential oracle still requires every schedule to do the same as the reference",
-        "the scripted socket hands over all buffered bytes a read asks for and accepts partial writes up to its capacity, and in buffering mode delivers on poll_flush only; other socket behaviours (errors, spurious wake-ups) are not generated",
+        "the scripted socket hands over all buffered bytes a read asks for and accepts partial writes up to its capacity, in buffering mode delivers on poll_flush only, in vectored mode accepts a prefix of the concatenated slices; other socket behaviours (write errors, spurious wake-ups) are not generated",
+        "an error or the end of the listener stream, and whatever other connections do, are not inputs of an established connection: it must go on answering exactly as its single-connection reference does",
+        "payload PDUs within one response may come in any order (compared as a multiset); Cache Response, End of Data (with the source's timing) and Cache Reset must be the prescribed octets",
         "a Serial Notify is owed only where the statement makes it unambiguous: notification fired alone after a quiescent point, connection parked reading a header, only well-formed queries in the stream; coalescing of bursts and notifications during a response are only bounded from above",
     ],
     level_text=(
@@ -49,8 +65,8 @@ prop(
     ),
     level_note=(
         "Trusts the harness' 8-byte-header PDU splitter and the scripted socket. Only schedules expressible as deliver / notify / settle / "
-        "drain steps are explored; multi-connection interference and real TCP behaviour are out of reach."
+        "drain steps are explored; up to three connections per server; real TCP behaviour and multi-threaded runtimes are out of reach."
     ),
-    technique="differential runtime oracle over enumerated schedules (scripted socket, deterministic stepping) + model oracle + Miri/ASan",
+    technique="differential runtime oracle over enumerated schedules (scripted sockets and listener, deterministic stepping, several connections) + prescribed-octets model oracle + Miri/ASan",
     design_ref="DESIGN.md §4 C08",
 )
